@@ -56,7 +56,8 @@ class NodeParser(PushParser):
         try:
             ns_map = self.ns_map if ns_map is None else ns_map
             result = handler.parse(source, ns_map)
-        except SyntaxError as e:
+        except (SyntaxError, LookupError) as e:
+            # LookupError: the xml declaration names an unknown encoding
             raise ParserError(e)
 
         if result is not None:
